@@ -583,6 +583,26 @@ def _str_method(s, name):
             except (ValueError, IndexError, KeyError, TypeError) as e:
                 raise PyRaise(type(e).__name__, str(e))
         if isinstance(s, str):
+            import re as _re
+            # pure string fields '{0:1s}{1:s}' on (symbolic) strings that need no padding: plain concatenation
+            toks = _re.split(r'(\{\d+(?::\d*s)?\})', s)
+            out, ok = [], not k
+            for t in toks:
+                m = _re.fullmatch(r'\{(\d+)(?::(\d*)s)?\}', t)
+                if m:
+                    i, w = int(m.group(1)), int(m.group(2) or 0)
+                    if i < len(a) and isinstance(a[i], (str, SStr)) and len(a[i]) >= w:
+                        out.extend(str_chars(a[i]))
+                    else:
+                        ok = False
+                        break
+                elif '{' in t or '}' in t:
+                    ok = False
+                    break
+                else:
+                    out.extend(ord(c) for c in t)
+            if ok:
+                return mk_str(out)
             return FmtStr([('fmt', s, list(a), dict(k))])
         return Opaque('str.format')
 
